@@ -217,7 +217,7 @@ type world struct {
 	reqs     map[int]*reqRun
 	order    []int
 	ticking  bool
-	drained  bool // the loop goroutine has drained and left: no more ticks
+	drained  bool // the loop goroutine has drained and left: no more ticks, no more TTL scans
 	asking   int
 	atSignal bool
 
@@ -489,10 +489,12 @@ func (w *world) exec(op *Op) bool {
 		if !w.ticking || w.asking == 0 || w.atSignal {
 			return false
 		}
-		w.tickAns <- op.B
 		if op.B && !w.hooked {
-			w.atSignal = true // no yield point: the loop runs on; OpSignal collects where it stops
+			// no yield point before the signal: the answer itself is held back
+			// until OpSignal (the loop stays parked inside the quota meanwhile)
+			w.atSignal = true
 		} else {
+			w.tickAns <- op.B
 			w.waitTick(o)
 		}
 	case OpSignal:
@@ -503,9 +505,14 @@ func (w *world) exec(op *Op) bool {
 		w.asking = 0
 		if w.hooked {
 			w.tickGo <- struct{}{}
+		} else {
+			w.tickAns <- true
 		}
 		w.waitTick(o)
 	case OpScan:
+		if w.drained {
+			return false // the watcher goroutine leaves on the cancellation that caused the drain
+		}
 		w.protect(o, w.h.TTLScan)
 	case OpAdvance:
 		w.mock.Set(w.mock.Now().Add(time.Duration(op.D)))
